@@ -18,7 +18,8 @@ RULE = ('each case = 40-300 steps: peer DATA sized against the shadow windows (e
         'opened before/after the ACK incl. reserved pushed streams; non-trivial = at least one fitting and the final '
         'overrun/last delivery judged; distinct = hash of step list')
 MINIMA = {'window_queries_checked': 20000, 'data_fit_accepted': 5000, 'data_exact_fit_accepted': 300,
-          'data_overrun_rejected': 300, 'raising_increment_checked': 300, 'iws_ack_applied': 300}
+          'data_overrun_rejected': 300, 'raising_increment_checked': 300, 'iws_ack_applied': 300,
+          'empty_data_on_exhausted_or_negative_window': 500, 'empty_data_on_negative_window': 100}
 MAXW = 2 ** 31 - 1
 
 
@@ -185,8 +186,10 @@ class Driver(object):
         """Deliver one DATA frame and judge the reaction against the shadow.  size = payload bytes (without padding)."""
         sh, rep = self.sh, self.rep
         fl = size + (0 if pad is None else pad + 1)
-        fits_conn = fl <= sh.conn
-        fits_stream = closed_stream or fl <= sh.stream[sid]
+        # a frame without flow-controlled octets consumes nothing and may be sent whatever the windows are (RFC 7540 6.9.1),
+        # including windows that an INITIAL_WINDOW_SIZE reduction has made negative (6.9.2)
+        fits_conn = fl == 0 or fl <= sh.conn
+        fits_stream = closed_stream or fl == 0 or fl <= sh.stream[sid]
         res = self.h.send(wire.build_data(sid, b'\x5a' * size, end_stream=end_stream, pad=pad))
         self.steps.append(('data', sid, size, pad, end_stream, 'closed' if closed_stream else '', fl, sh.conn,
                            None if closed_stream else sh.stream[sid]))
@@ -278,7 +281,13 @@ def run_case(idx, rng, tier, rep):
         elif r < 0.50 and d.accepts:
             sid = rng.choice(d.accepts)
             w = sh.window(sid)
-            if w < 0:
+            if w <= 0 or rng.random() < 0.04:
+                # nothing with octets fits: an empty DATA frame (often the one carrying END_STREAM) still has to be accepted
+                if rng.random() < 0.5:
+                    rep.count('empty_data_on_exhausted_or_negative_window' if w <= 0 else 'empty_data_on_positive_window')
+                    if w < 0:
+                        rep.count('empty_data_on_negative_window')
+                    d.deliver_data(sid, 0, None, end_stream=rng.random() < 0.5)
                 continue
             p = pick_size(rng, w)
             if p is None:
